@@ -10,6 +10,7 @@ mod hc;
 mod kmer;
 mod lits;
 mod misc;
+pub mod probe;
 pub mod derive_src {
     #[path = "/repo/bio-seq-derive/src/codec.rs"]
     pub mod codec;
